@@ -37,6 +37,7 @@ pub fn vpanic() -> !
     requires false,
 { panic!() }
 
+// ---- abstract BitReaderReversed: exactly the contracts Verus unit BRR1 proves on the verbatim bodies ----
 pub open spec fn low_mask(n: u8) -> u64 { ((1u64 << n) - 1) as u64 }
 pub const EXTRA_LIMIT: usize = 0x4000_0000_0000_0000;
 
@@ -46,31 +47,33 @@ impl<'s> BitReaderReversed<'s> {
     pub uninterp spec fn wf(&self) -> bool;
     pub uninterp spec fn remaining(&self) -> int;
     pub uninterp spec fn extra(&self) -> int;
+    pub uninterp spec fn src_len(&self) -> int;
 
     #[verifier::external_body]
     pub fn new(source: &'s [u8]) -> (r: BitReaderReversed<'s>)
         requires source@.len() <= 0x1_0000_0000,
-        ensures r.wf(), r.remaining() == 8 * source@.len(), r.extra() == 0,
+        ensures r.wf(), r.remaining() == 8 * source@.len(), r.extra() == 0, r.src_len() == source@.len(),
     { unimplemented!() }
     #[verifier::external_body]
     pub fn bits_remaining(&self) -> (r: isize)
         requires self.wf(),
-        ensures r == self.remaining(),
+        ensures r == self.remaining(), 0 <= self.extra() <= 8 * self.src_len() + 64 - self.remaining(), self.src_len() <= 0x1_0000_0000,
     { unimplemented!() }
     #[verifier::external_body]
     pub fn get_bits(&mut self, n: u8) -> (r: u64)
         requires old(self).wf(), n <= 56, old(self).extra() + 64 <= EXTRA_LIMIT,
         ensures final(self).wf(), final(self).remaining() == old(self).remaining() - n, r <= low_mask(n),
-                old(self).extra() <= final(self).extra() <= old(self).extra() + 64,
+                old(self).extra() <= final(self).extra() <= old(self).extra() + 64, final(self).src_len() == old(self).src_len(),
     { unimplemented!() }
     #[verifier::external_body]
     pub fn get_bits_triple(&mut self, n1: u8, n2: u8, n3: u8) -> (r: (u64, u64, u64))
         requires old(self).wf(), n1 <= 56, n2 <= 56, n3 <= 56, old(self).extra() + 192 <= EXTRA_LIMIT,
         ensures final(self).wf(), final(self).remaining() == old(self).remaining() - (n1 + n2 + n3),
                 r.0 <= low_mask(n1), r.1 <= low_mask(n2), r.2 <= low_mask(n3),
-                old(self).extra() <= final(self).extra() <= old(self).extra() + 192,
+                old(self).extra() <= final(self).extra() <= old(self).extra() + 192, final(self).src_len() == old(self).src_len(),
     { unimplemented!() }
 }
+
 
 #[derive(Copy, Clone)]
 pub struct Entry { pub base_line: u32, pub num_bits: u8, pub symbol: u8 }
